@@ -211,7 +211,12 @@ def sh3(prog):
                 if not pols and any(x[0] == "gamma" and mir.is_call(strip(x[1]), "polarity") for a in cs.args for x in mir.subterms(a)):
                     pols = [False, True]      # one construction whose children are chosen by the polarity
                 if not pols:
-                    errs.append("?line %d: node not under a polarity test" % cs.line)
+                    if mir.is_call(strip(cs.args[0]), "label"):
+                        errs.append("line %d: the node for an implied literal is built the same way for both polarities "
+                                    "(node(l, %s, %s)): one of the two then asserts the wrong value of the variable"
+                                    % (cs.line, show(cs.args[1])[:25], show(cs.args[2])[:25]))
+                    else:
+                        errs.append("?line %d: node not under a polarity test" % cs.line)
                     continue
                 for pol in pols:
                     seen.add(pol)
@@ -431,13 +436,18 @@ def cc(prog):
     for name, tr in (("collapse_clauses", "builder::bdd::builder::BddBuilder"), ("compile_cnf_helper", "builder::sdd::builder::SddBuilder")):
         fn = prog.find1(name=name, in_trait=tr, unit="rsdd-lib")
         te = fn.terms
-        joins = [cs for cs in te.calls if cs.callee.name in ("and", "or", "xor", "iff") and (cs.callee.trait or "").startswith("builder")]
+        # the join may sit in a closure (`back.map_or(front, |b| self.and(front, b))`)
+        bodies_ = [fn] + [g for g in prog.lib_fns if g.npath.startswith(fn.npath + "::{closure")]
+        joins = [cs for g in bodies_ for cs in g.terms.calls
+                 if cs.callee.name in ("and", "or", "xor", "iff") and (cs.callee.trait or "").startswith("builder")]
         errs = []
         if len(joins) != 1 or joins[0].callee.name != "and":
             errs.append("%shalves are joined with %s" % ("?" if not joins else "", [c.callee.name for c in joins]))
         else:
             a = [strip(x) for x in joins[0].args[1:]]
-            if not all(x[0] == "field" and "Some" in show(x) for x in a) or a[0] == a[1]:
+            # the operands are the two Some(..) payloads: projections, a closure's argument, or a captured payload
+            is_half = lambda x: (x[0] == "field" and "Some" in show(x)) or x[0] in ("param", "upvar")
+            if not all(is_half(x) for x in a) or a[0] == a[1]:
                 errs.append("and() does not join the results of the two halves: %s" % [show(x)[:40] for x in a])
         out.append(inst("SH", "%s:CC:conjunction" % fn.npath, VIOLATION if errs else OK, fn, None,
                         "; ".join(errs) if errs else "clauses are joined pairwise with and(left half, right half)"))
